@@ -135,6 +135,7 @@ func main() {
 	genSvcStart()
 	genHooks()
 	genActivate()
+	genManagerDo()
 	genBounds()
 	genMsgBounds()
 	if forProp == "" || forProp == "C15" {
